@@ -34,3 +34,93 @@ def parse_module(E, extra_derives=(), std_derives=("Debug", "Clone", "PartialEq"
             "    let xs = ins.get(&%d).unwrap_or(&empty);\n"
             "    parse_batch::<%s, %s>(o, %d, xs);\n}\n" % (E["id"], D.inst(E), err, E["id"]))
     return src
+
+
+def twin(E, suffix="B"):
+    """same definition under another name (for derives that cannot coexist on one type)"""
+    import copy
+    B = copy.deepcopy(E)
+    B["name"] = E["name"] + suffix
+    return B
+
+
+def names_module(E, derives=("Display", "AsRefStr", "IntoStaticStr", "VariantNames"), dep=True, parse=False,
+                 sers=False, which=1):
+    """module observing every string-producing derive on one value per enabled fixed-name variant"""
+    ds = list(derives)
+    if parse:
+        ds.append("EnumString")
+    if sers:
+        ds.append("EnumMessage")
+    src = HEADER
+    src += D.print_enum(E, ds) + "\n"
+    if parse:
+        src += probe_impl(E)
+    B = twin(E)
+    if dep:
+        src += D.print_enum(B, ["ToString", "AsStaticStr"]) + "\n"
+    did = E["id"]
+    body = []
+    err = "UserErr" if E["perr"] else "strum::ParseError"
+    for i, v in enumerate(E["variants"]):
+        if v["dis"]:
+            continue
+        k = i + 1
+        fixed = not v["def"] and not v["transp"]
+        x = D.ctor(E, v, which)
+        blk = ["    {", "        let r = catch(|| {", "            let x = %s;" % x]
+        if fixed:
+            has = lambda d: d in ds
+            outs = []
+            if has("Display"):
+                blk.append('            let display = format!("{}", x);')
+                blk.append('            let tostr = x.to_string();')
+                outs += [("display", "&display"), ("to_string", "&tostr")]
+            if has("AsRefStr"):
+                blk.append('            let as_ref: String = AsRef::<str>::as_ref(&x).to_string();')
+                outs += [("as_ref", "&as_ref")]
+            if has("IntoStaticStr"):
+                blk.append("            let into_ref: &'static str = (&x).into();")
+                blk.append("            let into_val: &'static str = x.clone().into();")
+                outs += [("into_ref", "into_ref"), ("into_val", "into_val")]
+                if E["cis"]:
+                    blk.append("            let into_str: &'static str = x.into_str();")
+                    outs += [("into_str", "into_str")]
+            if dep:
+                blk.append("            let xb = %s;" % D.ctor(B, v, which))
+                blk.append("            let dep_to_string = xb.to_string();")
+                blk.append("            let as_static: &'static str = strum::AsStaticRef::<str>::as_static(&xb);")
+                outs += [("ToString", "&dep_to_string"), ("AsStaticStr", "as_static")]
+            fmt = ",".join('{{\\"k\\":\\"%s\\",\\"s\\":{}}}' % k_ for k_, _ in outs)
+            args = ", ".join("jcps(%s)" % e_ for _, e_ in outs)
+            blk.append('            let mut evs = vec![format!("{{\\"op\\":\\"names\\",\\"def\\":%d,\\"i\\":%d,\\"n\\":%d,\\"outs\\":[%s]}}", %s)];' % (did, k, len(outs), fmt, args))
+            if parse and not E["prefix"]:
+                srcs = []
+                if has("Display"):
+                    srcs.append(("display", "display.clone()"))
+                if has("AsRefStr"):
+                    srcs.append(("as_ref", "as_ref.clone()"))
+                if has("IntoStaticStr"):
+                    srcs.append(("into", "into_ref.to_string()"))
+                for nm, ex in srcs:
+                    blk.append('            { let s: String = %s; evs.push(format!("{{\\"op\\":\\"rt\\",\\"def\\":%d,\\"i\\":%d,\\"src\\":\\"%s\\",\\"s\\":{},\\"r\\":{}}}", jcps(&s), parse_one::<%s, %s>(&s))); }' % (ex, did, k, nm, D.inst(E), err))
+                if sers:
+                    blk.append('            for s in strum::EnumMessage::get_serializations(&x) { evs.push(format!("{{\\"op\\":\\"rt\\",\\"def\\":%d,\\"i\\":%d,\\"src\\":\\"sers\\",\\"s\\":{},\\"r\\":{}}}", jcps(s), parse_one::<%s, %s>(s))); }' % (did, k, D.inst(E), err))
+        else:
+            blk.append("            let mut evs: Vec<String> = Vec::new();")
+        if sers:
+            blk.append('            evs.push(format!("{{\\"op\\":\\"sers\\",\\"def\\":%d,\\"i\\":%d,\\"sers\\":{}}}", jstrs(strum::EnumMessage::get_serializations(&x))));' % (did, k))
+        blk.append("            evs")
+        blk.append("        });")
+        blk.append('        match r { Ok(evs) => for e in evs { o.line(&e); }, Err(p) => o.line(&format!("{{\\"op\\":\\"panic\\",\\"def\\":%d,\\"i\\":%d,\\"msg\\":{}}}", jcps(&p))) }' % (did, k))
+        blk.append("    }")
+        body += blk
+    # get_serializations of disabled variants too
+    if sers:
+        for i, v in enumerate(E["variants"]):
+            if v["dis"]:
+                body.append('    { let x = %s; o.line(&format!("{{\\"op\\":\\"sers\\",\\"def\\":%d,\\"i\\":%d,\\"sers\\":{}}}", jstrs(strum::EnumMessage::get_serializations(&x)))); }' % (D.ctor(E, v, which), did, i + 1))
+    if "VariantNames" in ds:
+        body.append('    o.line(&format!("{{\\"op\\":\\"vnames\\",\\"def\\":%d,\\"names\\":{}}}", jstrs(<%s as strum::VariantNames>::VARIANTS)));' % (did, D.inst(E)))
+    src += ("pub fn run(o: &mut Out, ins: &std::collections::HashMap<u32, Vec<String>>, seed: u64) {\n%s\n}\n" % "\n".join(body))
+    return src
